@@ -2,6 +2,7 @@ package main
 
 import (
 	"fmt"
+	"github.com/tsawler/tabula/model"
 	"os"
 	"strings"
 
@@ -483,6 +484,8 @@ func init() {
 				os.Remove(path)
 				continue
 			}
+			dm, _ := rd.Document()
+			var sheetWants []map[[2]int]string
 			for i, s := range sheets {
 				cv := c17CaseV(s, sst)
 				tag := "book:valid"
@@ -505,6 +508,7 @@ func init() {
 						want[[2]int{c.row, c.col}] = c.shown
 					}
 				}
+				sheetWants = append(sheetWants, want)
 				okGrid := true
 				desc := ""
 				for k, v := range want {
@@ -573,6 +577,90 @@ func init() {
 					}
 				}
 				r.Check(okTb, "table-position", desc, cv)
+				// the document model's table of this sheet: the same positions
+				if dm != nil && i < len(dm.Pages) {
+					okDm := true
+					descD := ""
+					var mt *model.Table
+					for _, el := range dm.Pages[i].Elements {
+						if t, ok := el.(*model.Table); ok {
+							mt = t
+						}
+					}
+					for k, v := range want {
+						if v == "" {
+							continue
+						}
+						rr, cc := k[0]-minR, k[1]-minC
+						if mt == nil || rr >= len(mt.Rows) || cc >= len(mt.Rows[rr]) || mt.Rows[rr][cc].Text != v {
+							okDm = false
+							descD = fmt.Sprintf("document-model cell (%d,%d): want %q", rr, cc, v)
+						}
+					}
+					r.Check(okDm, "document-position", descD, cv)
+				}
+			}
+			// the Markdown of the workbook: one pipe table per non-empty sheet, cells at the same positions
+			if !valid {
+				// malformed workbooks: only the model agreement above
+			} else if md, merr := rd.Markdown(); merr == nil {
+				var blocks []string
+				cur := ""
+				for _, ln := range strings.Split(md, "\n") {
+					if strings.HasPrefix(strings.TrimSpace(ln), "|") {
+						cur += ln + "\n"
+					} else if cur != "" {
+						blocks = append(blocks, cur)
+						cur = ""
+					}
+				}
+				if cur != "" {
+					blocks = append(blocks, cur)
+				}
+				bi2 := 0
+				okMd, descM := true, ""
+				for si := range sheetWants {
+					want := sheetWants[si]
+					minR, minC, any := 1<<30, 1<<30, false
+					for k, v := range want {
+						if v == "" {
+							continue
+						}
+						any = true
+						if k[0] < minR {
+							minR = k[0]
+						}
+						if k[1] < minC {
+							minC = k[1]
+						}
+					}
+					if !any {
+						continue
+					}
+					if bi2 >= len(blocks) {
+						okMd, descM = false, fmt.Sprintf("sheet %d has no pipe table in the Markdown", si)
+						break
+					}
+					grid, ok := gfmTable(blocks[bi2])
+					bi2++
+					if !ok {
+						okMd, descM = false, fmt.Sprintf("the pipe table of sheet %d does not read back", si)
+						break
+					}
+					for k, v := range want {
+						if v == "" {
+							continue
+						}
+						rr, cc := k[0]-minR, k[1]-minC
+						nv := strings.Join(strings.Fields(strings.ReplaceAll(v, "|", " ")), " ")
+						if rr >= len(grid) || cc >= len(grid[rr]) || strings.Join(strings.Fields(strings.ReplaceAll(grid[rr][cc], "|", " ")), " ") != nv {
+							okMd, descM = false, fmt.Sprintf("sheet %d Markdown cell (%d,%d): want %q", si, rr, cc, v)
+						}
+					}
+				}
+				r.Check(okMd, "markdown-position", descM, nil)
+			} else {
+				r.Check(false, "markdown-position", "Markdown() fails: "+merr.Error(), nil)
 			}
 			// through the top-level API: same text as the reader
 			if bi%10 == 0 {
